@@ -258,7 +258,7 @@ func Main(prop, tier, verifDir, repo, replay string, budget time.Duration) int {
 	seed, _ := strconv.ParseInt(os.Getenv("VERIF_SEED"), 10, 64)
 	t0 := time.Now()
 	if budget == 0 {
-		budget = 150 * time.Second
+		budget = 300 * time.Second
 		if tier == "thorough" {
 			budget = 25 * time.Minute
 		}
